@@ -59,8 +59,9 @@ from supvisors.ttypes import *
 from supervisor.xmlrpc import RPCError
 
 
-class Hang(Exception):
-    """ raised by the watchdog when an implementation operation does not return """
+class Hang(BaseException):
+    """ raised by the watchdog when an implementation operation does not return (a BaseException: the last-resort guards of
+        the implementation - `except Exception` - must not swallow it) """
 
 
 class watchdog:
@@ -84,7 +85,7 @@ class watchdog:
 class Net:
     """ the simulated network: which instances are up, which pairs are cut """
     def __init__(self):
-        self.instances = {}; self.down = set(); self.cut = set()
+        self.instances = {}; self.down = set(); self.cut = set(); self.sent_to_isolated = []
 
     def reachable(self, a, b):
         return b not in self.down and a not in self.down and frozenset((a, b)) not in self.cut
@@ -101,18 +102,22 @@ class FakeServerProxy:
         self.net, self.src, self.dst = net, src, dst
         self.supervisor = FakeNS(self._supervisor); self.supvisors = FakeNS(self._supvisors)
 
-    def _check(self):
+    def _check(self, name=''):
+        # C13 observable: an XML-RPC really leaves `src` for an instance that `src` holds ISOLATED
+        src = self.net.instances.get(self.src)
+        if src is not None and self.src != self.dst and src.context.instances[self.dst].state == SupvisorsInstanceStates.ISOLATED:
+            self.net.sent_to_isolated.append((self.src, self.dst, name))
         if not self.net.reachable(self.src, self.dst): raise ConnectionRefusedError('sim')
 
     def _supervisor(self, name, *args):
-        self._check(); tgt = self.net.instances[self.dst]
+        self._check(name + ':' + (str(args[0])[:24] if args else '')); tgt = self.net.instances[self.dst]
         if name == 'sendRemoteCommEvent': tgt.inbox.append((args[0], args[1])); return True
         if name in ('restart', 'shutdown'): tgt.orders.append(name); return True
         if name == 'stopProcess' and getattr(tgt, 'fake', None): return tgt.fake.stop(args[0])
         raise NotImplementedError(name)
 
     def _supvisors(self, name, *args):
-        self._check(); tgt = self.net.instances[self.dst]
+        self._check(name); tgt = self.net.instances[self.dst]
         if name in ('restart', 'shutdown'):
             tgt.rpc_call(name); return True
         if name == 'start_args' and getattr(tgt, 'fake', None): return tgt.fake.start(args[0])
